@@ -716,6 +716,19 @@ func (it *Interp) binop(fr *frame, st *AState, x *ssa.BinOp) *AVal {
 		r = bitwiseV(a, b, w, s, xorBit)
 	case token.AND_NOT:
 		r = bitwiseV(a, b, w, s, func(p, q Bit) Bit { return andBit(p, q.Not()) })
+		// clearing the low k bits (mask 2^k − 1) rounds down to a multiple of 2^k: monotone, so the interval maps end to end
+		if m, isK := b.IsConst(); isK && m.Sign() > 0 && a.Lo != nil && a.Lo.Sign() >= 0 {
+			if mp := new(big.Int).Add(m, big.NewInt(1)); mp.BitLen() > 0 && new(big.Int).And(mp, m).Sign() == 0 {
+				lo := new(big.Int).AndNot(a.Lo, m)
+				hi := new(big.Int).AndNot(a.Hi, m)
+				if r.Lo == nil || lo.Cmp(r.Lo) > 0 {
+					r.Lo = lo
+				}
+				if r.Hi == nil || hi.Cmp(r.Hi) < 0 {
+					r.Hi = hi
+				}
+			}
+		}
 	case token.SHL, token.SHR:
 		k, ok := b.IsConst()
 		if !ok || !k.IsInt64() || k.Int64() < 0 || k.Int64() > 64 {
